@@ -389,3 +389,49 @@ Definition ktruth_step (t : list Z) (e : kev) : list Z :=
   | KTombstone _ => []
   end.
 Definition ktruth (l : list kev) : list Z := fold_left ktruth_step l [].
+
+(* ---------------------------------------------------------------- dispatch of one call to the listeners *)
+(* handleWatchEvents / handleChanges deliver a call to the listeners of the watcher while
+   listener callbacks (or other goroutines, while a callback runs) may call back into the
+   registry: Registry.Unmonitor (Subscriber.Close) removes a listener, Registry.Monitor
+   (NewSubscriber) appends one.  Listeners are identified by numbers; [acts i] = what happens
+   to the listener set while the i-th callback of the dispatch runs. *)
+Inductive mact := MLeave (l : Z) | MJoin (l : Z).
+
+Definition mapply (ls : list Z) (a : mact) : list Z :=
+  match a with MLeave l => zrem l ls | MJoin l => ls ++ [l] end.
+
+Definition members_after (ls : list Z) (n : nat) (acts : nat -> list mact) : list Z :=
+  fold_left (fun cur i => fold_left mapply (acts i) cur) (seq 0 n) ls.
+
+(* the code: `listeners := append([]UpdateListener(nil), watcher.listeners...)` under the lock,
+   then `for _, l := range listeners`: the dispatch ranges over a SNAPSHOT; result =
+   (listeners called, in order; listener set afterwards) *)
+Definition dispatch_copy (ls : list Z) (acts : nat -> list mact) : list Z * list Z :=
+  (ls, members_after ls (length ls) acts).
+
+(* the variant without the copy (`listeners := watcher.listeners`): the range goes over the
+   slice header (pointer, length) read at the start, i.e. over the live BACKING ARRAY.
+   Unmonitor's `append(s[:i], s[i+1:]...)` shifts the tail of that array one slot to the left
+   (the last slot keeps its content); Monitor's append never touches the first len slots. *)
+Fixpoint shift_out (l : Z) (arr : list Z) : list Z :=
+  match arr with
+  | [] => []
+  | x :: r => if x =? l then r ++ [last r x] else x :: shift_out l r
+  end.
+
+Definition arr_apply (arr : list Z) (a : mact) : list Z :=
+  match a with MLeave l => shift_out l arr | MJoin _ => arr end.
+
+Fixpoint dispatch_inplace_from (idx : list nat) (arr cur : list Z) (acts : nat -> list mact)
+         (called : list Z) : list Z * list Z :=
+  match idx with
+  | [] => (called, cur)
+  | i :: idx' =>
+    dispatch_inplace_from idx' (fold_left arr_apply (acts i) arr) (fold_left mapply (acts i) cur) acts
+                          (called ++ [nth i arr 0])
+  end.
+
+Definition dispatch_inplace (ls : list Z) (acts : nat -> list mact) : list Z * list Z :=
+  dispatch_inplace_from (seq 0 (length ls)) ls ls acts [].
+
